@@ -216,6 +216,21 @@ def run(facts, R):
             takes = [(i, t) for i, t in tb.calls() if t["callee"]["name"] == "take" and "Option" in t["callee"]["path"]]
             okt = len(takes) == 1 and "notify_tx" in render(ts.op(takes[0][1]["args"][0]))
             R.check(okt, "notify-closed-on-loss", tb.path, "slot.take()", "take_notify_sender does not take() the notify_tx slot", tb.span)
+            # the subscriber's stream ends when the *last sender is dropped*, not when the slot is emptied: the sender taken out of
+            # the slot must be gone before fail_all_pending waits for anything (the close handshake can stall behind a blocked writer
+            # for as long as the peer does not read).  No sender-typed value may be live across an await of fail_all_pending.
+            initf = definitely_init(fb)
+            held = []
+            for y in yields(fb):
+                live_ = init_at_point(fb, initf, term_pt(fb, y))
+                for l_ in sorted(live_):
+                    ty_ = fb.local_ty(l_)
+                    if "UnboundedSender<" in ty_ and not ty_.startswith("&") and "Arc<" not in ty_ and "WebSocketClientInner" not in ty_:
+                        held.append((y, fb.debug_name(l_) or "_%d" % l_))
+            R.check(not held, "notify-closed-on-loss", fb.path, "notify sender dropped before the close handshake is awaited",
+                    "the sender taken out of the notify slot is still alive while fail_all_pending awaits (%s): the subscriber's recv() does not see end-of-stream "
+                    "until the close handshake finishes, which a stalled writer can delay indefinitely" % sorted({n_ for _, n_ in held}), fb.span,
+                    "no UnboundedSender value live across an await")
 
     # ---------------- shutdown-wakes-reader: the blocking client's reader thread is parked in read(); only shutting the
     # *read* side down (Shutdown::Both) wakes it so that fail_all_pending runs; a half-close of the write side leaves the
